@@ -93,6 +93,40 @@ Example C19_invite_witnesses_now_hold :
 Proof. exact invite_witnesses_now_hold. Qed.
 Print Assumptions C19_invite_witnesses_now_hold.
 
+(* (3') across restarts (partial: histories with restarts and default rooms are compared with the
+   code case by case and judged by the same reference machine, but proved only in these two points):
+   an invitation that was used — whether or not its default room could be granted — is deleted from
+   the database, so PeerManager::new never brings it back *)
+Theorem C19_consumed_owned_not_reloaded_partial : forall mk s inv p,
+  ~ In (TkInvite inv, TOwned inv) (pm_tokens (rebuild mk (consume_owned s inv p))).
+Proof. exact consumed_owned_not_reloaded. Qed.
+Print Assumptions C19_consumed_owned_not_reloaded_partial.
+Theorem C19_consumed_invite_not_reloaded_partial : forall mk s t inv p a sg,
+  ~ In (TkInvite inv, TInvite inv a sg) (pm_tokens (rebuild mk (consume_invite s t inv p))).
+Proof. exact consumed_invite_not_reloaded. Qed.
+Print Assumptions C19_consumed_invite_not_reloaded_partial.
+
+(* class 4 (open), REFUTED before a restart: when the default room of an owned invitation cannot be
+   granted, invite_accepted returns before it removes the invitation from the table — a second peer is
+   accepted on it until the process restarts; with a grantable room / no room: once, across restarts *)
+Example C19_invdb_witnesses :
+  run_C19 (CInvDb 1 me0 1 ungrantable) = [1; 1; 2; 1; 2; 1; 1; 0; 0; 0]%Z /\
+  spec_C19 (CInvDb 1 me0 1 ungrantable) (run_C19 (CInvDb 1 me0 1 ungrantable)) = false /\
+  known_C19 (CInvDb 1 me0 1 ungrantable) = [4]%Z /\
+  run_C19 (CInvDb 1 me0 1 grantable) = [1; 1; 1; 2; 2; 1; 1; 0; 0; 0; 2; 1; 1; 0; 0; 0]%Z /\
+  spec_C19 (CInvDb 1 me0 1 grantable) (run_C19 (CInvDb 1 me0 1 grantable)) = true /\
+  known_C19 (CInvDb 1 me0 1 grantable) = [].
+Proof. exact invdb_witnesses. Qed.
+Print Assumptions C19_invdb_witnesses.
+
+(* (3'') the running service: the room list is answered on a connection only after the remote proved
+   a key it was entitled to ON THAT CONNECTION — never while the proof is pending, whatever circuit the
+   connection announces and whatever other connections of that circuit proved *)
+Theorem C19_served_only_after_own_proof : forall lk circuit t r before ev after,
+  serve_conn lk (circuit, t, r) = [before; ev; after] -> before = 0%Z /\ (after = 1%Z -> exists k, entitled 0 t r = Some k).
+Proof. exact served_only_after_own_proof. Qed.
+Print Assumptions C19_served_only_after_own_proof.
+
 (* (4) tokens: the same on both sides (Diffie-Hellman commutes) unless two DIFFERENT secrets have the
    SAME public key; stated for the abstract scheme and for the executable instance *)
 Theorem C19_token_symmetric : forall (sec pubk shared tok : Type) (pub_of : sec -> pubk) (dh : sec -> pubk -> shared)
@@ -111,7 +145,7 @@ Theorem C19_token_refuted :
 Proof. exact token_sym_refuted. Qed.
 Print Assumptions C19_token_refuted.
 
-(* (5) the same, about the functions the harness evaluates: outside the one open class (2) the
+(* (5) the same, about the functions the harness evaluates: outside the open classes (2, 4) the
    property's oracle holds on everything the model can observe — every remote behaviour, every
    history of table operations, every family of secrets *)
 Theorem C19_outside_known : forall c, case_ok c -> known_C19 c = [] -> spec_C19 c (run_C19 c) = true.
